@@ -137,8 +137,6 @@ class MergeForLoops_contract:
 
     def run(sh, a):
         parent, inner, inner_body_op, others = MergeForLoops_contract.build(sh, a)
-        if SYMBOLIC:
-            inner.parent = parent  # parent_op() of the inner loop (the block/region levels are not modelled)
         rw = PatternRewriter(inner)
         pcf.MergeForLoops().match_and_rewrite(inner, rw)
         rep = [e for e in rw.log if e[0] == "replace_op"]
